@@ -1,0 +1,57 @@
+//! Verification hooks (compiled only with `--cfg ckb_verif`): a stand-alone rich-indexer over
+//! its own SQL store, driven block by block exactly as the sync service drives it (`append` /
+//! `rollback`), with the public async query handle.
+use crate::indexer::AsyncRichIndexer;
+use crate::indexer_handle::AsyncRichIndexerHandle;
+pub use crate::store::SQLXPool;
+use ckb_app_config::RichIndexerConfig;
+use ckb_indexer_sync::{CustomFilters, Error};
+use ckb_types::core::BlockView;
+
+/// Store path of a private in-memory SQLite database.
+pub const MEMORY_DB: &str = "sqlite://?mode=memory";
+
+/// A stand-alone rich-indexer.
+#[derive(Clone)]
+pub struct VerifRichIndexer {
+    store: SQLXPool,
+    indexer: AsyncRichIndexer,
+}
+
+impl VerifRichIndexer {
+    /// Connect to (and initialise) the SQLite store at `store_path` (`MEMORY_DB` for a private
+    /// in-memory database); no tx-pool overlay, no custom filters.
+    pub async fn connect(store_path: &str) -> Result<Self, Error> {
+        let mut store = SQLXPool::default();
+        let config = RichIndexerConfig {
+            store: store_path.into(),
+            ..Default::default()
+        };
+        store
+            .connect(&config)
+            .await
+            .map_err(|err| Error::DB(err.to_string()))?;
+        let indexer = AsyncRichIndexer::new(store.clone(), None, CustomFilters::new(None, None));
+        Ok(VerifRichIndexer { store, indexer })
+    }
+
+    /// Index a block.
+    pub async fn append(&self, block: &BlockView) -> Result<(), Error> {
+        self.indexer.append(block).await
+    }
+
+    /// Roll the tip block back.
+    pub async fn rollback(&self) -> Result<(), Error> {
+        self.indexer.rollback().await
+    }
+
+    /// The query handle RPC uses.
+    pub fn handle(&self) -> AsyncRichIndexerHandle {
+        AsyncRichIndexerHandle::new(self.store.clone(), None, usize::MAX)
+    }
+
+    /// The store (row counts, raw queries).
+    pub fn store(&self) -> SQLXPool {
+        self.store.clone()
+    }
+}
